@@ -18,7 +18,8 @@ EXPLANATION = ("Histories of setter / call / read operations are executed on rea
 BOUNDS = {
     "quick": "Periodogram and pburg, real data N=3 (new data N=3 and N=4), symbolic sampling; operation alphabet of 17 "
              "(Periodogram) / 12 (pburg) operations; all histories of length <= 2 after construction (+ optional initial compute); inductive step for every operation from the 3 pre-states; "
-             "class sweep: 12 classes x {data, sampling, NFFT, scale_by_freq, sides} changed after a first estimate, real data at the classes' smallest sizes (N=3..5, NFFT 4->5)",
+             "class sweep: 12 classes x {data, sampling, NFFT, scale_by_freq, sides} changed after a first estimate, real data at the classes' smallest sizes (N=3..5, NFFT 4->5); "
+             "input-untouched: every class evaluated twice (NFFT 4 then 5) on real and complex data never writes into the caller's array and the second estimate equals a fresh object's",
     "thorough": "adds complex data and pcorrelogram (histories of length <= 2) and all histories of length 3 on real data for the three classes; class sweep on complex data too (parma / pma real only)",
 }
 ASSUMPTIONS = ["floats modelled as exact reals", "fft = DFT definition with exact twiddles",
@@ -256,10 +257,45 @@ def case_sweep(h, cls, cplx, op):
             h.fail("%s:len" % attr, "%d vs fresh %d" % (len(a), len(b)))
 
 
+def case_input_untouched(h, cls, cplx):
+    """evaluating an estimator object (twice, with an attribute change in between) never writes into the caller's array,
+    and the second estimate is the one a fresh object gives"""
+    from . import zoo
+    x = zoo.data(h, cls, cplx)
+    pristine = [x[i] for i in range(len(x))]
+    p = zoo.make(cls, x, n=4, fs=1.)
+    try:
+        _ = p.psd
+        p.NFFT = 5
+        got = p.psd
+        f = zoo.make(cls, h.const_vec(pristine, cplx) if not h.is_sym() else _fresh_copy(pristine, cplx), n=5, fs=1.)
+        expect = f.psd
+    except ValueError:
+        return
+    for i in range(len(pristine)):
+        h.claim_eq("caller's sample %d untouched" % i, x[i], pristine[i])
+    if len(got) != len(expect):
+        h.fail("len(psd)", "%d vs fresh %d" % (len(got), len(expect)))
+        return
+    for k in range(len(got)):
+        h.claim_eq("second estimate psd[%d]=fresh object on the original samples" % k, got[k], expect[k])
+
+
+def _fresh_copy(vals, cplx):
+    from symx.array import SymArray
+    return SymArray.make(list(vals), cplx=cplx)
+
+
 def cases(tier, seed):
     q = tier == 'quick'
     out = []
     from . import zoo
+    for cls in zoo.ALL:
+        for cplx in (True, False):
+            if cls in zoo.NSYM and (cplx or q):
+                continue
+            out.append(Case("input-untouched:%s:%s" % (cls, 'cx' if cplx else 're'), case_input_untouched, dict(cls=cls, cplx=cplx),
+                            timeout=60 if q else 300, max_paths=8, feas_timeout=3, wall=300 if q else 900, max_decisions=24))
     for cls in zoo.ALL:
         for cplx in ((False,) if q else (False, True)):
             for op in SWEEP_OPS:
